@@ -34,6 +34,8 @@ def _work(args):
             o = dict(opts)
             if hasattr(_MOD, 'ctx_class'):
                 o['ctx_cls'] = _MOD.ctx_class(case)
+            if '_fork' in case:
+                o['fork_paths'] = bool(case['_fork'])
             rec = symx.explore(_MOD.body, case, reset=getattr(_MOD, 'reset', None), **o)
         else:
             # direct solver job (no path exploration): module function returns a record
@@ -133,7 +135,9 @@ def main(pid, modname, tier, replay_path=None):
         key = (json.dumps(case, sort_keys=True), f['label'], fid)
         if key in seen_keys:
             continue
-        if fid is None and len([k for k in seen_keys if k[1] == f['label']]) >= 3:
+        if fid is None and len([k for k in seen_keys if k[1] == f['label']]) >= 12:
+            continue
+        if fid is None and len([k for k in seen_keys if k[1] == f['label'] and k[0] == json.dumps(case, sort_keys=True)]) >= 2:
             continue
         if len(seen_keys) >= MAXREPLAY:
             continue
